@@ -154,12 +154,17 @@ def run(ctx, config='rel-all'):
     # (Rc<u8>) must itself be neither -- otherwise arena handles (Vec<'b, _>, &'b Bump, String<'b>) stored as elements
     # could cross threads inside it (what std guarantees with `T: Send` / `T: Sync` bounds on its unsafe impls)
     pay = []
+    # Rc<u8> is neither; MutexGuard is Sync but not Send; Cell is Send but not Sync (a bound copied from the other impl passes the Rc probe)
+    PAYLOADS = {'Send': ('std::rc::Rc<u8>', "std::sync::MutexGuard<'static, u8>"), 'Sync': ('std::rc::Rc<u8>', 'std::cell::Cell<u8>')}
     for a in pub_adts:
-        ty = instantiate(a, payload='std::rc::Rc<u8>')
-        if ty is None or not any(p.startswith('ty:') and p.split(':', 1)[1] not in ('F',) for p in a['params']):
+        if not any(p.startswith('ty:') and p.split(':', 1)[1] not in ('F',) for p in a['params']):
             continue
         for tr in ('Send', 'Sync'):
-            pay.append(('payload-%s:%s' % (tr, a['path']), matrix.trait_probe(ty, tr, True)))
+            for pl in PAYLOADS[tr]:
+                ty = instantiate(a, payload=pl)
+                if ty is None:
+                    continue
+                pay.append(('payload-%s[%s]:%s' % (tr, pl.split('::')[-1].split('<')[0], a['path']), matrix.trait_probe(ty, tr, True)))
     tres = witness.run_probes(libdir, tprobes + pay)
     npay = 0
     for name, _ in pay:
@@ -167,14 +172,15 @@ def run(ctx, config='rel-all'):
         if v is None:
             continue
         npay += 1
-        tr, path = name[len('payload-'):].split(':', 1)
+        trp, path = name[len('payload-'):].split(':', 1)
+        tr = trp.split('[')[0]
         if v['ok']:
-            ctx.violation('R3', path, 'payload-%s' % tr, '%s with an element type that is not %s (Rc<u8>) is accepted as %s: non-%s elements -- for example vectors, strings or references tied to an arena -- could be moved or shared across threads inside it' % (path, tr, tr, tr))
+            ctx.violation('R3', path, 'payload-%s' % trp, '%s with an element type that is not %s (Rc<u8>) is accepted as %s: non-%s elements -- for example vectors, strings or references tied to an arena -- could be moved or shared across threads inside it' % (path, tr, tr, tr))
         elif 'E0277' in v['codes']:
-            ctx.ok('R3', '%s<.. Rc<u8> ..> is not %s' % (path, tr), 'rustc: E0277')
+            ctx.ok('R3', '%s<.. %s ..> is not %s' % (path, trp.split('[')[1].rstrip(']'), tr), 'rustc: E0277')
         else:
             ctx.note('payload probe for %s inconclusive: %s' % (path, v['codes']))
-    ctx.floor('R3.payload', npay, 14, 'payload auto-trait probes on generic public types')
+    ctx.floor('R3.payload', npay, 28, 'payload auto-trait probes on generic public types')
     arena_entries = arena_entry_set(db)
     cg = call_graph(db)
     for a in pub_adts:
